@@ -283,23 +283,18 @@ func (c *VirtualTable) BestIndex(input []IndexInput, order []OrderInput) (*Index
 		}
 		out.EstimatedCost /= 2.0
 	}
+	// rows come back in key order, and the key is unique: an ORDER BY is satisfied
+	// exactly when its first term is the key, whatever terms follow
 	out.AlreadyOrdered = true
-	var desc *bool
-	for i := range order {
-		if order[i].Column != c.KeyCol {
+	desc := false
+	if len(order) > 0 {
+		if order[0].Column != c.KeyCol {
 			out.AlreadyOrdered = false
+		} else {
+			desc = order[0].Desc
 		}
-		if desc != nil {
-			return nil, errors.New("order specified multiple times")
-		}
-		v := order[i].Desc
-		desc = &v
 	}
-	if desc == nil {
-		a := false
-		desc = &a
-	}
-	if *desc {
+	if desc {
 		out.IdxStr = "desc " + out.IdxStr
 	} else {
 		out.IdxStr = "asc  " + out.IdxStr
